@@ -426,3 +426,6 @@ for _p in ("C01", "C02"):
     PROPS[_p]["thorough"].append({"variant": "default", "cases": 150000, "params": {"profile": "mix", "analysis": 1}, "timeout": 3000})
 # C03 swapped-pair family (C03j): a two-parameter subterm next to its copy with the parameters exchanged, under repeated-variable rules
 PROPS["C03"]["floors"]["any"]["runs_swapped_pair"] = 200
+PROPS["C03"]["quick"].append({"variant": "default", "cases": 4000, "params": {"swapped": 1}, "timeout": 900})
+PROPS["C03"]["thorough"].append({"variant": "default", "cases": 60000, "params": {"swapped": 1}, "timeout": 3400})
+PROPS["C03"]["floors"]["any"]["runs_swapped_pair"] = 2000
